@@ -1160,10 +1160,83 @@ def dict_receiver(ctx, rng):
     return tskit.TableCollection.fromdict
 
 
+def check_stale_index(ctx, o, rng, tmp):
+    """A collection whose index went STALE because the number of edge rows changed after it was built (has_index() is
+    then False although the old arrays are still allocated) is an ordinary object: it must dump and load back equal,
+    without an index, through every route."""
+    tc = o.tc.copy()
+    try:
+        tc.build_index()
+    except tskit.LibraryError:
+        return
+    ne = tc.edges.num_rows
+    how = rng.choice(["append-row", "append-row", "truncate-1", "truncate-all", "extend-self", "keep-rows"])
+    e = tc.edges
+    if how == "append-row":
+        if tc.nodes.num_rows == 0:
+            return
+        # through the columns: row metadata is raw bytes here, whatever the schema says (add_row would validate)
+        e.append_columns(left=np.array([0.0]), right=np.array([float(tc.sequence_length)]),
+                         parent=np.array([0], dtype=np.int32), child=np.array([0], dtype=np.int32),
+                         metadata=np.zeros(0, dtype=np.int8), metadata_offset=np.zeros(2, dtype=np.uint64))
+    elif how == "truncate-1" and ne > 0:
+        e.truncate(ne - 1)
+    elif how == "truncate-all" and ne > 0:
+        e.truncate(0)
+    elif how == "extend-self" and ne > 0:
+        e.append_columns(left=e.left.copy(), right=e.right.copy(), parent=e.parent.copy(), child=e.child.copy(),
+                         metadata=e.metadata.copy(), metadata_offset=e.metadata_offset.copy())
+    elif how == "keep-rows" and ne > 1:
+        e.keep_rows(np.arange(ne) % 2 == 0)
+    else:
+        return
+    ctx.count("stale-index-roundtrip")
+    ctx.feature("stale-index:" + how)
+    if tc.has_index():
+        ctx.violation("stale-index/has_index-true", f"has_index() is True after the edge table went from {ne} to "
+                      f"{tc.edges.num_rows} rows ({how}) without a rebuild")
+        return
+    snap = Snap(tc)
+    p = os.path.join(tmp, "stale.trees")
+    route = rng.choice(["path", "fileobj", "stream-middle"])
+    try:
+        if route == "path":
+            tc.dump(p)
+        elif route == "fileobj":
+            with open(p, "wb") as f:
+                tc.dump(f)
+        else:
+            with open(p, "wb") as f:
+                o.tc.dump(f)
+                tc.dump(f)
+                o.tc.dump(f)
+    except Exception as ex:  # noqa: BLE001
+        ctx.violation(f"stale-index/dump-raised-{type(ex).__name__}", f"dump ({route}) of a collection with a stale index ({how}) "
+                      f"raised {type(ex).__name__}: {ex}")
+        return
+    try:
+        if route == "stream-middle":
+            with open(p, "rb") as f:
+                tskit.TableCollection.load(f)
+                back = tskit.TableCollection.load(f)
+                third = tskit.TableCollection.load(f)
+            same(ctx, "stale-index/stream-third", third, o.snap)
+        else:
+            back = tskit.TableCollection.load(p)
+    except Exception as ex:  # noqa: BLE001
+        ctx.violation(f"stale-index/load-raised-{type(ex).__name__}", f"a collection whose index went stale ({how}: {ne} -> "
+                      f"{tc.edges.num_rows} edge rows) was dumped ({route}) but cannot be loaded back: {type(ex).__name__}: {ex}")
+        return
+    same(ctx, "stale-index/" + route, back, snap)
+    if back.has_index():
+        ctx.violation("stale-index/index-appeared", f"loaded object has an index although the dumped one had none ({how}, {route})")
+
+
 def run_interchange(case, ctx, rng, tmp):
     o = Obj(rng, ctx, want_ts=None)
     tc = o.tc
     ctx.sig(repr(o.snap.cm), nontrivial=o.nrows() > 0)
+    check_stale_index(ctx, o, rng, tmp)
     # copy
     ok, c = guarded(ctx, "copy", tc.copy)
     if ok:
